@@ -1,13 +1,424 @@
-(* Handler specification of AppendEntries (C06), for every node state and every request. *)
-From RaftV Require Import Node.Leader Proofs.RVSpec.
+(* Handler specification of AppendEntries (C06), for EVERY node state and EVERY request:
+   no bound on log length, terms, indices or the number of entries. *)
+From RaftV Require Import Node.Leader Proofs.Frame.
 Open Scope N_scope.
 
 Definition ae_success (r : option ae_resp) : bool := match r with Some p => aer_success p | None => false end.
 
+(* log and commit index untouched *)
+Definition LC (n n' : node) : Prop := n_log n' = n_log n /\ n_commit n' = n_commit n /\ n_lii n' = n_lii n /\ n_lit n' = n_lit n.
+Lemma LC_refl n : LC n n. Proof. repeat split. Qed.
+Lemma LC_trans a b c : LC a b -> LC b c -> LC a c.
+Proof. intros (A1 & A2 & A3 & A4) (B1 & B2 & B3 & B4). repeat split; congruence. Qed.
 
-(* A rejected request (success = false, or an error) leaves the log and the commit index as they were. *)
-Theorem ae_reject_unchanged now n q :
-  ae_success (snd (h_append_entries now n q)) = false -> n_out (fst (h_append_entries now n q)) = n_out n ->
-  n_log (fst (h_append_entries now n q)) = n_log n /\ n_commit (fst (h_append_entries now n q)) = n_commit n.
+Lemma LC_become_follower now n l t : LC n (become_follower now n l t).
 Proof.
-Abort.
+  pose proof (vol_become_follower now n l t) as H. unfold vol in H. injection H as H1 H2 H3 H4 _ _ _ _ _.
+  repeat split; [apply log_become_follower|assumption..].
+Qed.
+
+Lemma LC_fail o n : LC n (fail o n).
+Proof. unfold fail. destruct (n_out n); repeat split. Qed.
+
+(* the node just before the log checks of the handler *)
+Definition ae_pre (now : N) (n : node) (q : ae_req) : node :=
+  let n1 := n <| n_contact := now |> <| n_leader := Some (ae_leader q) |> in
+  let n2 := if n_term n1 <? ae_term q then become_follower now n1 (ae_leader q) (ae_term q) else n1 in
+  if (ae_term q =? n_term n2) && (role_eqb (n_role n2) Candidate || role_eqb (n_role n2) PreCandidate)
+  then become_follower now n2 (ae_leader q) (ae_term q) else n2.
+
+Lemma LC_ae_pre now n q : LC n (ae_pre now n q).
+Proof.
+  unfold ae_pre.
+  set (n1 := n <| n_contact := now |> <| n_leader := Some (ae_leader q) |>).
+  assert (H1 : LC n n1) by (repeat split).
+  set (n2 := if n_term n1 <? ae_term q then _ else n1).
+  assert (H2 : LC n1 n2) by (subst n2; destruct (n_term n1 <? ae_term q); [apply LC_become_follower|apply LC_refl]).
+  eapply LC_trans; [exact H1|]. eapply LC_trans; [exact H2|].
+  destruct (_ && _); [apply LC_become_follower|apply LC_refl].
+Qed.
+
+(* shape of the handler after the preamble *)
+Lemma ae_unfold now n q :
+  role_eqb (n_role n) Shutdown = false -> (ae_term q <? n_term n) = false ->
+  h_append_entries now n q =
+  let n3 := ae_pre now n q in
+  let reject n' idx := (n', Some {| aer_term := n_term n'; aer_success := false; aer_index := idx |}) in
+  let l := n_log n3 in
+  if ae_prev_index q <? n_lii n3 then reject n3 (n_lii n3 + 1) else
+  if next_index l <=? ae_prev_index q then reject n3 (next_index l) else
+  if (n_lii n3 =? ae_prev_index q) && negb (n_lit n3 =? ae_prev_term q) then reject n3 (n_lii n3) else
+  let conflict :=
+    if n_lii n3 <? ae_prev_index q then
+      match log_get l (ae_prev_index q) with
+      | None => Some None
+      | Some pe => if e_term pe =? ae_prev_term q then None
+                   else Some (Some (conflict_scan (length l) l (n_lii n3) (ae_prev_index q - 1) (e_term pe) + 1))
+      end
+    else None in
+  match conflict with
+  | Some None => (fail Fatal n3, None)
+  | Some (Some idx) => reject n3 idx
+  | None =>
+      match ae_scan now n3 (ae_entries q) with
+      | None => (fail Fatal n3, None)
+      | Some (n4, to_append) =>
+          let n5 := append_entries n4 to_append in
+          let verified := ae_prev_index q + N.of_nat (length (ae_entries q)) in
+          let c := N.min (ae_commit q) verified in
+          let n6 := if n_commit n5 <? c then signal_apply (n5 <| n_commit := c |>) else n5 in
+          (n6, Some {| aer_term := n_term n6; aer_success := true; aer_index := 0 |})
+      end
+  end.
+Proof. intros H1 H2. unfold h_append_entries. rewrite H1, H2. reflexivity. Qed.
+
+(* C06: a rejected request (or one that ends in an error) leaves the log and the commit index as they were *)
+Theorem ae_reject_unchanged now n q :
+  ae_success (snd (h_append_entries now n q)) = false ->
+  LC n (fst (h_append_entries now n q)).
+Proof.
+  intros Hs.
+  destruct (role_eqb (n_role n) Shutdown) eqn:E1; [unfold h_append_entries; rewrite E1; apply LC_refl|].
+  destruct (ae_term q <? n_term n) eqn:E2; [unfold h_append_entries; rewrite E1, E2; apply LC_refl|].
+  rewrite (ae_unfold now n q E1 E2) in *. cbn zeta in *.
+  pose proof (LC_ae_pre now n q) as H3. set (n3 := ae_pre now n q) in *.
+  destruct (ae_prev_index q <? n_lii n3); [exact H3|].
+  destruct (next_index (n_log n3) <=? ae_prev_index q); [exact H3|].
+  destruct ((n_lii n3 =? ae_prev_index q) && negb (n_lit n3 =? ae_prev_term q)); [exact H3|].
+  match goal with |- LC n (fst (match ?c with _ => _ end)) => destruct c as [[idx|]|] end.
+  - exact H3.
+  - cbn [fst]. eapply LC_trans; [exact H3|apply LC_fail].
+  - destruct (ae_scan now n3 (ae_entries q)) as [[n4 ta]|].
+    + cbn [snd ae_success aer_success] in Hs. discriminate.
+    + cbn [fst]. eapply LC_trans; [exact H3|apply LC_fail].
+Qed.
+
+(* commit index: append_entries / truncate / next_configuration do not touch it *)
+Lemma commit_tick n : n_commit (snd (tick_write n)) = n_commit n.
+Proof. pose proof (tick_write_core n) as H. cbn zeta in H. destruct H as (_ & _ & _ & _ & _ & _ & _ & H). unfold vol in H. congruence. Qed.
+
+Lemma commit_append es : forall n, n_commit (append_entries n es) = n_commit n.
+Proof.
+  induction es as [|e es IH]; intros n; cbn [append_entries]; [reflexivity|].
+  pose proof (commit_tick n) as H. destruct (tick_write n) as [ok n1]. cbn [snd] in H.
+  destruct ok; [rewrite IH; exact H|exact H].
+Qed.
+
+Lemma commit_truncate n i : n_commit (truncate_log n i) = n_commit n.
+Proof.
+  unfold truncate_log. pose proof (commit_tick n) as H. destruct (tick_write n) as [ok n1]. cbn [snd] in H.
+  destruct ok; exact H.
+Qed.
+
+Lemma commit_stepdown now n : n_commit (stepdown now n) = n_commit n.
+Proof.
+  unfold stepdown.
+  set (a := n <| n_role := Follower |>).
+  assert (Ha : n_commit a = n_commit n) by reflexivity. clearbody a.
+  destruct (sc_notify a) as [_ _ _ _ _ _ _ _ _ V2]. set (b := notify_lost_leadership a) in *. clearbody b.
+  destruct (sc_new_opmanager now b) as [_ _ _ _ _ _ _ _ _ V3]. set (c := new_opmanager now b) in *. clearbody c.
+  destruct (sc_cancel c) as [_ _ _ _ _ _ _ _ _ V1].
+  unfold vol in *. injection V1 as V1 _ _ _ _ _ _ _ _. injection V2 as V2 _ _ _ _ _ _ _ _. injection V3 as V3 _ _ _ _ _ _ _ _.
+  congruence.
+Qed.
+
+Lemma commit_upd_fc (m : node) a b : n_commit (m <| n_followers := a |> <| n_conf := b |>) = n_commit m.
+Proof. reflexivity. Qed.
+Lemma commit_reset m : n_commit (reset_snapshot_files m) = n_commit m. Proof. reflexivity. Qed.
+
+Lemma commit_next_configuration now n c : n_commit (next_configuration now n c) = n_commit n.
+Proof.
+  unfold next_configuration. destruct c as [nx|]; [|unfold fail; destruct (n_out n); reflexivity].
+  set (n1 := if is_member nx (n_id n) then n else _).
+  assert (H : n_commit n1 = n_commit n).
+  { subst n1. destruct (is_member nx (n_id n)); [reflexivity|]. rewrite commit_reset.
+    destruct (role_eqb (n_role n) Leader); [apply commit_stepdown|reflexivity]. }
+  clearbody n1. rewrite commit_upd_fc. exact H.
+Qed.
+
+Lemma commit_ae_scan now es : forall n n4 l, ae_scan now n es = Some (n4, l) -> n_commit n4 = n_commit n.
+Proof.
+  induction es as [|e es IH]; intros n n4 l H; cbn [ae_scan] in H.
+  - injection H as <- _. reflexivity.
+  - destruct (last_index (n_log n) <? e_index e); [injection H as <- _; reflexivity|].
+    destruct (log_get (n_log n) (e_index e)) as [ex|]; [|discriminate].
+    destruct ((e_index ex =? e_index e) && negb (e_term ex =? e_term e)).
+    + injection H as <- _.
+      destruct (e_index e <=? c_index (conf_of (truncate_log n (e_index e))));
+        [rewrite commit_next_configuration|]; apply commit_truncate.
+    + eapply IH; exact H.
+Qed.
+
+(* C06: the commit index never moves backwards, and never past the last entry verified by the request *)
+Theorem ae_commit_bounds now n q :
+  let n' := fst (h_append_entries now n q) in
+  n_commit n <= n_commit n' /\
+  n_commit n' <= N.max (n_commit n) (N.min (ae_commit q) (ae_prev_index q + N.of_nat (length (ae_entries q)))).
+Proof.
+  cbn zeta.
+  destruct (role_eqb (n_role n) Shutdown) eqn:E1; [unfold h_append_entries; rewrite E1; cbn [fst]; lia|].
+  destruct (ae_term q <? n_term n) eqn:E2; [unfold h_append_entries; rewrite E1, E2; cbn [fst]; lia|].
+  rewrite (ae_unfold now n q E1 E2). cbn zeta.
+  pose proof (LC_ae_pre now n q) as (_ & H3 & _). set (n3 := ae_pre now n q) in *.
+  destruct (ae_prev_index q <? n_lii n3); [cbn [fst]; lia|].
+  destruct (next_index (n_log n3) <=? ae_prev_index q); [cbn [fst]; lia|].
+  destruct ((n_lii n3 =? ae_prev_index q) && negb (n_lit n3 =? ae_prev_term q)); [cbn [fst]; lia|].
+  match goal with |- context [fst (match ?c with _ => _ end)] => destruct c as [[idx|]|] end.
+  - cbn [fst]. lia.
+  - cbn [fst]. destruct (LC_fail Fatal n3) as (_ & H & _). lia.
+  - destruct (ae_scan now n3 (ae_entries q)) as [[n4 ta]|] eqn:Es.
+    + cbn [fst]. pose proof (commit_ae_scan _ _ _ _ _ Es) as H4. pose proof (commit_append ta n4) as H5.
+      set (n5 := append_entries n4 ta) in *.
+      destruct (N.ltb_spec (n_commit n5) (N.min (ae_commit q) (ae_prev_index q + N.of_nat (length (ae_entries q)))));
+        cbn [signal_apply n_commit set]; change (n_commit (signal_apply ?x)) with (n_commit x); cbn; lia.
+    + cbn [fst]. destruct (LC_fail Fatal n3) as (_ & H & _). lia.
+Qed.
+
+(* ---------- what a successful AppendEntries does to the log ---------- *)
+(* a log: placeholder first, indices consecutive *)
+Fixpoint consecutive (i : N) (es : list entry) : Prop :=
+  match es with
+  | [] => True
+  | e :: r => e_index e = i /\ consecutive (i + 1) r
+  end.
+Definition wf_log (l : list entry) : Prop := l <> [] /\ consecutive (first_index l) l.
+
+Lemma consecutive_app i a b : consecutive i (a ++ b) <-> consecutive i a /\ consecutive (i + N.of_nat (length a)) b.
+Proof.
+  revert i. induction a as [|x a IH]; intros i; cbn [app consecutive length].
+  - replace (i + N.of_nat 0) with i by lia. tauto.
+  - rewrite IH. replace (i + 1 + N.of_nat (length a)) with (i + N.of_nat (S (length a))) by lia. tauto.
+Qed.
+
+Lemma consecutive_nth i l : consecutive i l -> forall k d, (k < length l)%nat -> e_index (nth k l d) = i + N.of_nat k.
+Proof.
+  revert i. induction l as [|x l IH]; intros i H k d Hk; [cbn in Hk; lia|].
+  destruct H as [Hx Hl]. destruct k as [|k]; cbn [nth]; [lia|].
+  rewrite (IH _ Hl) by (cbn in Hk; lia). lia.
+Qed.
+
+Lemma last_consecutive l : forall i d, consecutive i l -> l <> [] -> e_index (last l d) = i + N.of_nat (length l) - 1.
+Proof.
+  induction l as [|x l IH]; intros i d Hc Hne; [congruence|].
+  destruct Hc as [Hx Hl]. destruct l as [|y l'].
+  - cbn. lia.
+  - change (last (x :: y :: l') d) with (last (y :: l') d).
+    rewrite (IH (i + 1) d Hl) by discriminate. cbn [length]. lia.
+Qed.
+
+Lemma last_index_consecutive l : wf_log l -> last_index l = first_index l + N.of_nat (length l) - 1.
+Proof. intros [Hne Hc]. unfold last_index, last_entry. apply last_consecutive; assumption. Qed.
+
+(* log_get on a well-formed log is positional *)
+Lemma log_get_wf l i : wf_log l -> first_index l < i -> i < first_index l + N.of_nat (length l) ->
+  exists e, log_get l i = Some e /\ e_index e = i /\ nth_error l (N.to_nat (i - first_index l)) = Some e.
+Proof.
+  intros [Hne Hc] H1 H2. unfold log_get, log_contains.
+  destruct (N.leb_spec (i - first_index l) 0); [lia|].
+  destruct (N.leb_spec (N.of_nat (length l)) (i - first_index l)); [lia|]. cbn [orb negb].
+  destruct (nth_error l (N.to_nat (i - first_index l))) as [e|] eqn:E.
+  - exists e. repeat split.
+    apply nth_error_nth with (d := entry0) in E. rewrite <- E.
+    rewrite (consecutive_nth _ _ Hc) by lia. lia.
+  - apply nth_error_None in E. lia.
+Qed.
+
+Lemma log_get_beyond l i : first_index l + N.of_nat (length l) <= i -> log_get l i = None.
+Proof.
+  intros H. unfold log_get, log_contains.
+  destruct (N.leb_spec (N.of_nat (length l)) (i - first_index l)); [|lia].
+  rewrite orb_true_r. reflexivity.
+Qed.
+
+(* with unlimited budget the log operations are the plain list operations *)
+Definition unlimited (n : node) : Prop := n_frozen n = false /\ n_budget n = None.
+
+Lemma tick_unlimited n : unlimited n -> tick_write n = (true, n).
+Proof. intros [F B]. unfold tick_write. rewrite F, B. reflexivity. Qed.
+
+Lemma append_unlimited es : forall n, unlimited n ->
+  n_log (append_entries n es) = n_log n ++ es /\ unlimited (append_entries n es).
+Proof.
+  induction es as [|e es IH]; intros n U; cbn [append_entries]; [rewrite app_nil_r; auto|].
+  rewrite (tick_unlimited n U).
+  destruct (IH (n <| n_log ::= fun l => l ++ [e] |>)) as [H1 H2]; [exact U|].
+  split; [rewrite H1; cbn; rewrite <- app_assoc; reflexivity|exact H2].
+Qed.
+
+Lemma truncate_unlimited n i : unlimited n -> n_log (truncate_log n i) = log_truncate (n_log n) i /\ unlimited (truncate_log n i).
+Proof. intros U. unfold truncate_log. rewrite (tick_unlimited n U). split; [reflexivity|exact U]. Qed.
+
+Definition lfb (n : node) := (n_log n, n_frozen n, n_budget n).
+Lemma lfb_same_core a b : same_core a b -> lfb a = lfb b.
+Proof. intros []. unfold lfb. congruence. Qed.
+
+Lemma lfb_stepdown now n : lfb (stepdown now n) = lfb n.
+Proof.
+  unfold stepdown. set (a := n <| n_role := Follower |>).
+  assert (Ha : lfb a = lfb n) by reflexivity. clearbody a.
+  rewrite (lfb_same_core _ _ (sc_cancel _)), (lfb_same_core _ _ (sc_new_opmanager _ _)), (lfb_same_core _ _ (sc_notify _)).
+  exact Ha.
+Qed.
+
+Lemma lfb_upd_fc (m : node) a b : lfb (m <| n_followers := a |> <| n_conf := b |>) = lfb m.
+Proof. reflexivity. Qed.
+
+Lemma lfb_next_configuration now n c : lfb (next_configuration now n c) = lfb n.
+Proof.
+  unfold next_configuration. destruct c as [nx|]; [|unfold fail; destruct (n_out n); reflexivity].
+  set (n1 := if is_member nx (n_id n) then n else _).
+  assert (H : lfb n1 = lfb n).
+  { subst n1. destruct (is_member nx (n_id n)); [reflexivity|].
+    rewrite (lfb_same_core _ _ (sc_reset_snapshot_files _)).
+    destruct (role_eqb (n_role n) Leader); [apply lfb_stepdown|reflexivity]. }
+  clearbody n1. rewrite lfb_upd_fc. exact H.
+Qed.
+
+Lemma unlimited_lfb a b : lfb a = lfb b -> unlimited b -> unlimited a.
+Proof. unfold lfb, unlimited. intros H [F B]. injection H as _ H2 H3. split; congruence. Qed.
+
+(* The loop over the request's entries, on a well-formed log and consecutive entries that start inside or right
+   after the log: it stops at the first entry that is missing or conflicting; everything before it is already in
+   the log with the same term; the log is cut exactly there (a no-op cut when the entry is merely missing). *)
+Lemma ae_scan_shape now es : forall n n4 ta i0,
+  unlimited n -> wf_log (n_log n) -> consecutive i0 es ->
+  first_index (n_log n) < i0 -> i0 <= next_index (n_log n) ->
+  ae_scan now n es = Some (n4, ta) ->
+  exists a, es = a ++ ta /\ unlimited n4 /\
+    (forall k, (k < length a)%nat ->
+       exists x, nth_error (n_log n) (N.to_nat (i0 + N.of_nat k - first_index (n_log n))) = Some x /\
+                 e_index x = e_index (nth k a entry0) /\ e_term x = e_term (nth k a entry0)) /\
+    n_log n4 = match ta with
+               | [] => n_log n
+               | _ => firstn (N.to_nat (i0 + N.of_nat (length a) - first_index (n_log n))) (n_log n)
+               end.
+Proof.
+  induction es as [|e es IH]; intros n n4 ta i0 U Hwf Hc H1 H2 H; cbn [ae_scan] in H.
+  - injection H as <- <-. exists []. split; [reflexivity|]. split; [exact U|].
+    split; [intros k Hk; cbn in Hk; lia|reflexivity].
+  - destruct Hc as [He Hc].
+    pose proof (last_index_consecutive _ Hwf) as HL. unfold next_index in H2.
+    assert (Hlen : (0 < length (n_log n))%nat) by (destruct Hwf as [Hne _]; destruct (n_log n); [congruence|cbn; lia]).
+    destruct (N.ltb_spec (last_index (n_log n)) (e_index e)) as [Hb|Hb].
+    + (* missing: append from here; the cut is at the end of the log *)
+      injection H as <- <-. exists []. split; [reflexivity|]. split; [exact U|].
+      split; [intros k Hk; cbn in Hk; lia|].
+      cbn [length]. replace (N.to_nat (i0 + N.of_nat 0 - first_index (n_log n))) with (length (n_log n)) by lia.
+      rewrite firstn_all. reflexivity.
+    + destruct (log_get_wf (n_log n) (e_index e) Hwf) as (ex & Hg & Hi & Hn); [lia|lia|].
+      rewrite Hg in H. rewrite Hi, N.eqb_refl in H. cbn [andb] in H.
+      destruct (N.eqb_spec (e_term ex) (e_term e)) as [Et|Et]; cbn [negb] in H.
+      * (* present with the same term: skip *)
+        destruct (IH n n4 ta (i0 + 1) U Hwf Hc) as (a & Ea & U4 & Ha & Hl); [lia|unfold next_index; lia|exact H|].
+        exists (e :: a). split; [cbn [app]; congruence|]. split; [exact U4|]. split.
+        -- intros k Hk. destruct k as [|k]; cbn [nth].
+           ++ exists ex. replace (i0 + N.of_nat 0) with (e_index e) by lia. auto.
+           ++ destruct (Ha k) as (x & Hx & Hxi & Hxt); [cbn in Hk; lia|].
+              exists x. replace (i0 + N.of_nat (S k)) with (i0 + 1 + N.of_nat k) by lia. auto.
+        -- rewrite Hl. destruct ta; [reflexivity|]. cbn [length].
+           replace (i0 + N.of_nat (S (length a))) with (i0 + 1 + N.of_nat (length a)) by lia. reflexivity.
+      * (* conflict: cut here *)
+        destruct (truncate_unlimited n (e_index e) U) as [HT UT].
+        assert (HN : lfb (if e_index e <=? c_index (conf_of (truncate_log n (e_index e)))
+                          then next_configuration now (truncate_log n (e_index e)) (n_cconf (truncate_log n (e_index e)))
+                          else truncate_log n (e_index e)) = lfb (truncate_log n (e_index e))).
+        { destruct (_ <=? _); [apply lfb_next_configuration|reflexivity]. }
+        injection H as <- <-. exists []. split; [reflexivity|]. split; [eapply unlimited_lfb; eassumption|].
+        split; [intros k Hk; cbn in Hk; lia|].
+        unfold lfb in HN. injection HN as HN _ _. rewrite HN, HT. unfold log_truncate. cbn [length].
+        replace (i0 + N.of_nat 0) with (e_index e) by lia. reflexivity.
+Qed.
+
+Lemma persist_unlimited m : unlimited m -> unlimited (persist m) /\ n_log (persist m) = n_log m.
+Proof.
+  intros U. unfold persist. rewrite (tick_unlimited m U). split; [exact U|reflexivity].
+Qed.
+
+Lemma become_follower_unlimited now n l t : unlimited n -> unlimited (become_follower now n l t).
+Proof.
+  intros U. eapply unlimited_lfb; [apply lfb_same_core, become_follower_core|].
+  apply persist_unlimited. exact U.
+Qed.
+
+Lemma ae_pre_unlimited now n q : unlimited n -> unlimited (ae_pre now n q).
+Proof.
+  intros U. unfold ae_pre.
+  set (n1 := n <| n_contact := now |> <| n_leader := Some (ae_leader q) |>).
+  assert (U1 : unlimited n1) by exact U.
+  set (n2 := if n_term n1 <? ae_term q then _ else n1).
+  assert (U2 : unlimited n2) by (subst n2; destruct (n_term n1 <? ae_term q); [apply become_follower_unlimited|]; exact U1).
+  destruct (_ && _); [apply become_follower_unlimited|]; exact U2.
+Qed.
+
+(* C06, the accepting case, for every well-formed follower log and every request whose entries are
+   consecutive from prev+1: the request's entries split into a part [a] that the log already holds (same index,
+   same term, at the same positions) and a rest [ta]; if the rest is empty the log is untouched; otherwise the
+   log is cut immediately after [a] - removing nothing when the rest merely extends the log - and [ta] is
+   appended.  In particular nothing at or before prev+|a| is ever removed, and a cut only happens at the first
+   conflicting entry. *)
+Theorem ae_success_log now n q :
+  unlimited n -> wf_log (n_log n) -> first_index (n_log n) = n_lii n ->
+  consecutive (ae_prev_index q + 1) (ae_entries q) ->
+  ae_success (snd (h_append_entries now n q)) = true ->
+  exists a ta,
+    ae_entries q = a ++ ta /\
+    (forall k, (k < length a)%nat ->
+       exists x, nth_error (n_log n) (N.to_nat (ae_prev_index q + 1 + N.of_nat k - first_index (n_log n))) = Some x /\
+                 e_index x = e_index (nth k a entry0) /\ e_term x = e_term (nth k a entry0)) /\
+    n_log (fst (h_append_entries now n q)) =
+      match ta with
+      | [] => n_log n
+      | _ => firstn (N.to_nat (ae_prev_index q + 1 + N.of_nat (length a) - first_index (n_log n))) (n_log n) ++ ta
+      end.
+Proof.
+  intros U Hwf Hfi Hc Hs.
+  destruct (role_eqb (n_role n) Shutdown) eqn:E1; [unfold h_append_entries in Hs; rewrite E1 in Hs; discriminate|].
+  destruct (ae_term q <? n_term n) eqn:E2; [unfold h_append_entries in Hs; rewrite E1, E2 in Hs; discriminate|].
+  rewrite (ae_unfold now n q E1 E2) in *. cbn zeta in *.
+  pose proof (LC_ae_pre now n q) as (HL & _ & Hlii & _).
+  pose proof (ae_pre_unlimited now n q U) as U3. set (n3 := ae_pre now n q) in *.
+  destruct (N.ltb_spec (ae_prev_index q) (n_lii n3)); [discriminate|].
+  destruct (N.leb_spec (next_index (n_log n3)) (ae_prev_index q)); [discriminate|].
+  destruct ((n_lii n3 =? ae_prev_index q) && negb (n_lit n3 =? ae_prev_term q)); [discriminate|].
+  match type of Hs with context [match ?c with _ => _ end] => destruct c as [[idx|]|] end; try discriminate.
+  destruct (ae_scan now n3 (ae_entries q)) as [[n4 ta]|] eqn:Es; [|discriminate].
+  destruct (ae_scan_shape now (ae_entries q) n3 n4 ta (ae_prev_index q + 1) U3) as (a & Ea & U4 & Ha & Hl4);
+    [rewrite HL; exact Hwf|exact Hc|rewrite HL, Hfi, <- Hlii; lia|lia|exact Es|].
+  exists a, ta. split; [exact Ea|]. split; [rewrite HL in Ha; exact Ha|].
+  cbn [fst]. destruct (append_unlimited ta n4 U4) as [H5 _].
+  match goal with |- n_log (if ?c then _ else _) = _ => destruct c end;
+    change (n_log (signal_apply ?x)) with (n_log x); cbn [n_log set]; rewrite ?H5, Hl4, HL;
+    destruct ta; [rewrite app_nil_r; reflexivity|reflexivity|rewrite app_nil_r; reflexivity|reflexivity].
+Qed.
+
+(* the part of the log up to the request's prev index is never touched by an accepted request *)
+Corollary ae_success_prefix now n q :
+  unlimited n -> wf_log (n_log n) -> first_index (n_log n) = n_lii n ->
+  consecutive (ae_prev_index q + 1) (ae_entries q) ->
+  ae_success (snd (h_append_entries now n q)) = true ->
+  firstn (N.to_nat (ae_prev_index q + 1 - first_index (n_log n))) (n_log (fst (h_append_entries now n q)))
+  = firstn (N.to_nat (ae_prev_index q + 1 - first_index (n_log n))) (n_log n).
+Proof.
+  intros U Hwf Hfi Hc Hs.
+  destruct (ae_success_log now n q U Hwf Hfi Hc Hs) as (a & ta & _ & _ & Hl). rewrite Hl.
+  destruct ta as [|t ta]; [reflexivity|].
+  rewrite firstn_app, firstn_firstn.
+  replace (Nat.min (N.to_nat (ae_prev_index q + 1 - first_index (n_log n)))
+                   (N.to_nat (ae_prev_index q + 1 + N.of_nat (length a) - first_index (n_log n))))
+    with (N.to_nat (ae_prev_index q + 1 - first_index (n_log n))) by lia.
+  rewrite firstn_length.
+  replace (N.to_nat (ae_prev_index q + 1 - first_index (n_log n)) -
+           Nat.min (N.to_nat (ae_prev_index q + 1 + N.of_nat (length a) - first_index (n_log n))) (length (n_log n)))%nat
+    with 0%nat.
+  - rewrite firstn_O, app_nil_r. reflexivity.
+  - (* the cut position is inside the log: prev < next_index *)
+    destruct (role_eqb (n_role n) Shutdown) eqn:E1; [unfold h_append_entries in Hs; rewrite E1 in Hs; discriminate|].
+    destruct (ae_term q <? n_term n) eqn:E2; [unfold h_append_entries in Hs; rewrite E1, E2 in Hs; discriminate|].
+    rewrite (ae_unfold now n q E1 E2) in Hs. cbn zeta in Hs.
+    pose proof (LC_ae_pre now n q) as (HL & _ & Hlii & _). set (n3 := ae_pre now n q) in *.
+    destruct (N.ltb_spec (ae_prev_index q) (n_lii n3)); [discriminate|].
+    destruct (N.leb_spec (next_index (n_log n3)) (ae_prev_index q)); [discriminate|].
+    rewrite HL in *. unfold next_index in *. rewrite (last_index_consecutive _ Hwf) in *.
+    assert ((0 < length (n_log n))%nat) by (destruct Hwf as [Hne _]; destruct (n_log n); [congruence|cbn; lia]).
+    lia.
+Qed.
